@@ -505,6 +505,21 @@ def check(case):
         lab.append("repeated")
     if res_arrays and arg_arrays:
         lab.append("array_from_array")
+    # the caller now edits its own array IN PLACE and calls again with the very same objects: the answer must be the
+    # answer for the edited input, i.e. equal to a call on fresh copies (no result remembered per argument object)
+    if name not in NON_DETERMINISTIC and arg_arrays:
+        target = next((a for a in arg_arrays if a.ndim == 2 and a.size and (a != 0).any() and a.flags.writeable), None)
+        if target is not None:
+            nz = np.argwhere(target != 0)
+            r, c0 = nz[case.get("i", 0) % len(nz)]
+            target[r, c0] = 0
+            o3 = lib(fn, *args, **kwargs)
+            o4 = lib(fn, *copy.deepcopy(args), **copy.deepcopy(kwargs))
+            same = (o3.ok == o4.ok) and (not o3.ok or _snap(_result_view(o3.value)) == _snap(_result_view(o4.value)))
+            if not same:
+                raise Violation("stale_after_inplace_edit:%s" % name, "%s called again with the same array object after the caller edited it in "
+                                "place differs from the call on a fresh copy of the edited input; original graph=%s" % (name, A.tolist()))
+            lab.append("edited_in_place")
     return lab
 
 
